@@ -511,10 +511,32 @@ def gen_schema(outdir):
             coq_str(name), "; ".join(coq_str(b) for b in bases),
             ";\n     ".join(ps), ";\n     ".join(al), "; ".join(df),
             "true" if ov else "false", "true" if ch else "false", pos))
+    # ---- rules over a SET of parameters: every call `self.<helper>([<two or more string literals>])` inside a class's
+    #      own verify() (e.g. self.has_none_or_one_of(["id_token_hint", "login_hint", "login_hint_token"])), by ast:
+    #      (class, helper, the member names in the order the code lists them) ----
+    set_calls = []
+    for name, c in classes:
+        f = c.__dict__.get("verify")
+        if f is None:
+            continue
+        try:
+            fn = ast.parse(textwrap.dedent(inspect.getsource(f))).body[0]
+        except Exception as e:
+            raise Untranslatable("%s.verify: source not available (%s)" % (name, e))
+        for n in ast.walk(fn):
+            if (isinstance(n, ast.Call) and isinstance(n.func, ast.Attribute) and isinstance(n.func.value, ast.Name)
+                    and n.func.value.id == "self" and len(n.args) == 1 and not n.keywords
+                    and isinstance(n.args[0], (ast.List, ast.Tuple)) and len(n.args[0].elts) >= 2
+                    and all(isinstance(e, ast.Constant) and isinstance(e.value, str) for e in n.args[0].elts)):
+                set_calls.append("  (%s, %s, [%s])" % (coq_str(name), coq_str(n.func.attr),
+                                                       "; ".join(coq_str(e.value) for e in n.args[0].elts)))
     text = ("(* GENERATED by harness/gen_tables.py (gen_schema) from the current /repo/src - do not edit.\n"
             "   %d Message subclasses, %d declared parameters. *)\n"
             "From Coq Require Import String.\nFrom Verif Require Import Lib.Base Lib.MsgSchema.\n\n"
             "Definition all_classes : list mclass := [\n%s\n].\n" % (len(classes), nparams, ";\n".join(rows)))
+    text += ("\n(* calls self.<helper>([names]) found in the classes' own verify(): (class, helper, names) *)\n"
+             "Definition set_rule_calls : list (pystr * pystr * list pystr) := %s.\n"
+             % ("[\n%s\n]" % ";\n".join(set_calls) if set_calls else "nil"))
     emit(outdir, "Schema.v", text)
 
 
